@@ -190,6 +190,10 @@ fn main() {
         "worker" => worker(&args),
         "probe" => probe(&args),
         "show" => show(&args),
+        "today" => {
+            exec::print_today(args.get(2).and_then(|s| s.parse().ok()).unwrap_or(0));
+            0
+        }
         "run" => driver::run(&args),
         "replay" => driver::replay(&args),
         "selftest" => driver::selftest(&args),
